@@ -3,6 +3,7 @@
     generic in a flag [fa] ("running out of fuel is acceptable"). *)
 From Sheens Require Export Proofs.CplBasics.
 From Coq Require Import Lia.
+From Sheens Require Import Proofs.BoundMatch.
 
 (** * Variable-free values used as patterns *)
 Lemma var_free_pvars : forall p, var_free p = true -> pvars p = [].
@@ -512,7 +513,7 @@ Section Total.
           specialize (Ha (or_introl eq_refl)). rewrite Ea in Ha. cbn [orb] in Ha.
           rewrite (plain_var_inequal s f bs Ha).
           destruct (lookup s bs) as [b|] eqn:El.
-          -- pose proof (good_lookup s bs b Hb El) as Hgb. apply IH; try assumption.
+          -- pose proof (good_lookup s bs b Hb El) as Hgb. rewrite (bound_match_var_free _ b f bs (proj1 Hgb)). apply IH; try assumption.
              ++ intros Hfa. specialize (Hk Hfa). unfold need in *. cbn [var_free] in Hk.
                 rewrite Es in Hk. cbn [negb json_depth] in Hk. destruct Hgb as [Hvf Hd]. rewrite Hvf. lia.
              ++ apply okp_var_free. apply Hgb.
